@@ -180,10 +180,13 @@ func genConnLimit(r *rand.Rand, tier string) Case {
 			closedOne := false
 			if out {
 				h.mu.Lock()
-				if len(h.accepted) > 0 {
-					h.accepted[0].Close()
-					h.accepted = h.accepted[1:]
-					closedOne = true
+				for k, c := range h.accepted { // one whose handshake the loop has already turned into a peer
+					if v.HasOutgoingPeerTo(c.LocalAddr().(*net.TCPAddr).IP) {
+						c.Close()
+						h.accepted = append(h.accepted[:k], h.accepted[k+1:]...)
+						closedOne = true
+						break
+					}
 				}
 				h.mu.Unlock()
 			} else {
